@@ -422,8 +422,15 @@ def main(argv):
         surv = [i for i, r in ts.items() if r["tests_exit"] == 0]
         print(f"mutants {len(ms)}; suite run on {len(ts)}; survive the suite {len(surv)}; "
               f"engines run on {len(es)}")
-        caught, harness, quiet = [], [], []
+        caught, harness, quiet, stale = [], [], [], []
         for i, r in es.items():
+            if i in deeper and not any(v["status"] == "violation" for v in deeper[i]["props"].values()):
+                # (the later record describes the tree as it is now)
+                d_ = deeper[i]["props"]
+                if any(v["status"] == "stale" or (v["status"] == "harness" and "symsim-mut-" in v.get("detail", ""))
+                       for v in d_.values()):
+                    stale.append(i)
+                    continue
             sts = {p: v["status"] for p, v in r["props"].items()}
             if "violation" in sts.values():
                 caught.append(i)
@@ -431,6 +438,7 @@ def main(argv):
                 harness.append(i)
             else:
                 quiet.append(i)
+        print(f"  no longer applicable after the fix: commits made meanwhile (mutation point moved or gone): {len(stale)}")
         print(f"  violation reported: {len(caught)} (of which only with the larger second-pass budget: "
               f"{sum(1 for i in caught if i in deeper)}); harness error/hang only: {len(harness)}; quiet: {len(quiet)}"
               f" (second pass run on {len(deeper)})")
